@@ -381,6 +381,39 @@ pub fn gen_program(rng: &mut Rng) -> Vec<Rule> {
         _ => rng.range_usize(6, 10),
     };
     let mut rules: Vec<Rule> = vec![];
+    // Chained rules: independent random rules almost never feed each other, so one program in four starts with a
+    // chain in which the result of one rule is the left side of the next: (l,r) -> a ligature form that keeps l and
+    // leaves the cursor on it (forms `l^ir`, `l^i_`), (l,i) -> a kern or another ligature, and a rule for what
+    // follows the inserted glyph (the hyphen, a pending kern with the next letter, a ligature with it). That is the
+    // shape in which one inseparable group holds a kern that is NOT its last node, a ligature built on a ligature,
+    // or a group whose last character has a rule with the hyphen.
+    if rng.chance(1, 4) {
+        let l = pickc(rng, SYN_LETTERS);
+        let r = pickc(rng, SYN_LETTERS);
+        let g = pickc(rng, SYN_GLYPHS);
+        rules.push(Rule { left: l, right: r, op: RuleOp::Lig(*rng.pick(&[0u8, 5, 5]), g) });
+        let second = if rng.chance(2, 3) {
+            RuleOp::Kern(*rng.pick(&[100, -50, 200, 7]))
+        } else {
+            RuleOp::Lig(*rng.pick(&[0u8, 1, 5, 6]), pickc(rng, SYN_GLYPHS))
+        };
+        if l != g {
+            rules.push(Rule { left: l, right: g, op: second });
+        }
+        let next = match rng.below(4) {
+            0 | 1 => '-',
+            2 => pickc(rng, SYN_LETTERS),
+            _ => '|',
+        };
+        let third = if rng.coin() {
+            RuleOp::Kern(*rng.pick(&[100, -50, 200, 7]))
+        } else {
+            RuleOp::Lig(rng.below(8) as u8, pickc(rng, SYN_GLYPHS))
+        };
+        if !rules.iter().any(|q| q.left == g && q.right == next) {
+            rules.push(Rule { left: g, right: next, op: third });
+        }
+    }
     for _ in 0..n {
         let r = gen_rule(rng);
         if !rules.iter().any(|q| q.left == r.left && q.right == r.right) {
